@@ -13,7 +13,7 @@ PID = "C02"
 THEOREM_MODULES = ["GuppyVerif.Props.C02"]
 DRIVER = "C02"
 RULE = (
-    "search on the REAL check()+lowering, seven streams (the seventh: every tests/error program and 12 % of the rejected mutants re-run in 13 placements/encodings of the source file - error on line 1, last line without newline, blank lines, CRLF, tabs, non-ASCII; imports and the compile call executed outside the file): (1) corpus witnesses of the crashes fixed so far; (2) every program of "
+    "search on the REAL check()+lowering, eight streams (the eighth: generated generic functions / structs with interleaved comptime, const and type parameters - declared, defined, PEP 695, comptime, overloaded, methods - each misused once so that the diagnostic prints their type; the seventh: every tests/error program and 12 % of the rejected mutants re-run in 13 placements/encodings of the source file - error on line 1, last line without newline, blank lines, CRLF, tabs, non-ASCII; imports and the compile call executed outside the file): (1) corpus witnesses of the crashes fixed so far; (2) every program of "
     "/repo/tests/error (run against /repo's sources, which the pinned suite never does) with experimental features on and off; "
     "(3) every test function of /repo/tests/integration turned into a module (accepted seeds); (4) AST mutants of (2)+(3): weird "
     "expressions, wrapped expressions/statements (branches, loops, nested defs, modifier blocks, unreachable code), renamed / "
@@ -57,8 +57,8 @@ MANIFEST = {
     "level_text": "PARTIAL. C02 itself (no non-Guppy exception escapes check/compile for any program) is NOT proved; it is SEARCHED: "
     "~10^4 (quick) / ~2.4*10^5 (thorough) programs per run through the real check()+lowering - /repo's ~480 tests/error programs and "
     "~560 integration tests harvested and run against /repo's own sources, AST mutants of them, generated functions and mutants, a "
-    "std-call sweep - with crash / unrenderable diagnostic / span outside the program / hang as failing inputs (22 such crashes were found "
-    "this way and fixed in 19 commits; their witnesses are re-run first). What Lean proves: (a) inventory theorems over a table regenerated "
+    "std-call sweep - with crash / unrenderable diagnostic / span outside the program / hang as failing inputs (23 such crashes were found "
+    "this way and fixed in 20 commits; their witnesses are re-run first). What Lean proves: (a) inventory theorems over a table regenerated "
     "from /repo's sources on every run: every assert / raise InternalGuppyError / non-Guppy raise / assert_never / zip(strict) / local-dict "
     "subscript in the 8 anchored checker files is classified in the committed Spec (`sites_classified`, `id_lists_faithful`, "
     "`classification_functional`), so a NEW site breaks the proof; 20 of 120 sites are `guarded` by an existing theorem (C08 "
@@ -308,6 +308,10 @@ def _search(ctx, scale: float = 1.0):
         batches.append(("harvest", rng.randrange(1 << 30), per, None))
     for _ in range(max(1, n_g // per)):
         batches.append(("gen", rng.randrange(1 << 30), per, None))
+    # typed-entity stream: misuses of generic functions / structs with interleaved comptime, const and type parameters
+    n_t = int(ctx.n(2400, 40000) * scale)
+    for _ in range(max(1, n_t // per)):
+        batches.append(("types", rng.randrange(1 << 30), per, None))
     combos = [(i, a, f) for i in range(len(c02_run.SWEEP)) for a in range(len(c02_run.SWEEP_ARGS))
               for f in range(len(c02_run.SWEEP_FORMS))]
     if quick:
